@@ -32,6 +32,9 @@ PATHS = [
     "global:scalar", "global:array", "global:const",
     "static:lit", "static:expr",
     "from-elemN:decl", "from-elemN:assign", "from-elemN:return",
+    # direct stores into struct members (CbCore plain structs; range checked since fix a3f0b3d)
+    "member:lit", "member:var", "member:tern", "member:call", "member:compound", "member:incdec-pre", "member:incdec-post",
+    "member:elem1", "member:elemN",
 ]
 # matrix path -> path of the Mech model (coq/C04/Model.v [path])
 MECH_PATH = {
@@ -45,6 +48,7 @@ MECH_PATH = {
     "assign:tern-tinyvar": "assign-hint:tiny", "assign:tern-bool": "assign-hint:bool",
     "assign:call": "assign-call", "assign:static": "static-assign", "compound:static": "static-assign",
     "incdec-var:static": "static-assign", "decl:call": "decl-call", "elem1:global": "elem1-global", "global:const": "const-global",
+    "member": "member",
 }
 # the same program with the declared type written through a typedef alias (signed types only: `typedef unsigned tiny U8;` and
 # `unsigned T8 x;` are parse errors): declaration.cpp has its own branch for typedef'd declarations
@@ -471,6 +475,45 @@ def build(path, t, v, rng):
             G = ["(G 0 long 2 (2 2) (0 0 0 %d))" % v]
             F = ["(F 1 %s () ((ret (idx 2 1 1))))" % t]
             M = ["(decl 0 0 long 3 (call 1))", _readback(3)]
+    elif p == "member":
+        # struct S1 { long m0 ; T m1 ; } ; S1 v2 ;  member j of struct variable x is the cell 1000 + 8 * x + j (Lang.Syntax.mkey):
+        # v2.m1 = cell 1017, v2.m0 = cell 1016 (must stay 0).  managers/structs/assignment.cpp assign_struct_member /
+        # assign_struct_member_array_element, incdec.cpp (member branch): clamp + check_type_range since fix a3f0b3d
+        tgt, pad = 1017, 1016
+        if how in ("elem1", "elemN"):
+            dims = [3] if how == "elem1" else [2, 2]
+            idx = [rng.randrange(d) for d in dims]
+            other = [(idx[0] + 1) % dims[0]] + idx[1:]
+            M = ["(struct 1 2 long (%s %s))" % (t, " ".join(map(str, dims))), "(asg (idx %d %s) %d)" % (tgt, " ".join(map(str, idx)), v),
+                 _readback_elem(tgt, idx), _readback_elem(tgt, other), _readback(pad)]
+            extra = [0, 0]
+        else:
+            S = "(struct 1 2 long %s)" % t
+            if how == "lit":
+                M = [S, "(asg (v %d) %d)" % (tgt, v)]
+            elif how == "var":
+                M = ["(decl 0 0 %s 3 %d)" % (W, v), S, "(asg (v %d) (v 3))" % tgt]
+            elif how == "tern":
+                M = [COND1, S, "(asg (v %d) (cond (v 4) %d 0))" % (tgt, v)]
+            elif how == "call":
+                F = [IDENT]
+                M = [S, "(asg (v %d) (call 2 %d))" % (tgt, v)]
+            elif how == "compound":
+                r = compound_operands("add", t, v, rng)
+                if r is None:
+                    return None
+                start, op, operand = r
+                M = [S, "(asg (v %d) %d)" % (tgt, start), "(casg %s (v %d) %d)" % (op, tgt, operand)]
+            elif how in ("incdec-pre", "incdec-post"):
+                r = incdec_start(t, v, rng)
+                if r is None:
+                    return None
+                start, inc = r
+                M = [S, "(asg (v %d) %d)" % (tgt, start), "(incdec %d %d (v %d))" % (1 if how == "incdec-pre" else 0, inc, tgt)]
+            else:
+                raise ValueError(path)
+            M += [_readback(tgt), _readback(pad)]
+            extra = [0]
     else:
         raise ValueError(path)
     return "(P (%s) (%s) (%s))" % (" ".join(G), " ".join(F), " ".join(M)), query, extra
@@ -517,8 +560,17 @@ def typedef_source(src, t):
 RAW_PATHS = ["multi-decl:lit", "multi-decl:first", "multi-decl:var", "multi-decl:call", "multi-decl:tern",
              "incdec-expr:post", "incdec-expr:pre", "neglit:decl", "neglit:assign", "elem1:param", "funcptr-arg:lit",
              "arrlit-assign:1d", "arrlit-assign:2d", "arr-copy:assign", "arr-copy:param",
-             "member:assign", "member:literal", "member:compound", "member:array-elem", "member:param", "member:generic",
-             "member-nested:assign", "member-nested:arrow", "deref:assign", "reference:assign", "reference:param"]
+             # direct member stores (range checked since fix a3f0b3d: Mech = Spec, main must show the Spec transcript)
+             "member:assign", "member:compound", "member:array-elem", "member:array-elem2", "member:param", "member:generic",
+             "member:incdec-expr",
+             # what the fix does not cover: struct literals (unsigned clamp only) ...
+             "member-literal:positional", "member-literal:named", "member-literal:nested", "member-literal:generic", "member-literal:assign",
+             "member-literal:struct-array-elem", "member-literal:array", "member-arrlit:assign",
+             # ... and indirect member stores (nothing): nested member, through a pointer, through a reference / self, element of a struct array
+             "member-nested:assign", "member-nested:compound", "member-pointer:arrow", "member-pointer:deref-dot",
+             "member-reference:local", "member-reference:param", "member-reference:self",
+             "member-struct-array:assign", "member-struct-array:compound",
+             "deref:assign", "reference:assign", "reference:param"]
 
 
 def raw_build(path, t, v, rng):
@@ -599,16 +651,13 @@ def raw_build(path, t, v, rng):
                    "void main() {\n  long[3] w = [ 0 , %s , 0 ] ;\n  println( f( w ) ) ;\n}\n" % (T, lit(v)))
         return src, "store arr-copy %s %d" % (t, v), [0]
     if p == "member":
-        # member_assignment.cpp / managers/structs/assignment.cpp: the unsigned clamp only (finding C04-struct-member-unchecked)
+        # managers/structs/assignment.cpp assign_struct_member / assign_struct_member_array_element, incdec.cpp member branch:
+        # unsigned clamp, then check_type_range (fix a3f0b3d)
         q = "store member %s %d" % (t, v)
         if how == "assign":
             src = ("struct S { %s m ; long pad ; } ;\nvoid main() {\n  S s ;\n  s.m = %s ;\n  println( ( s.m + 0 ) ) ;\n"
                    "  println( s.pad ) ;\n}\n" % (T, lit(v)))
             return src, q, [0]
-        if how == "literal":
-            src = ("struct S { long pad ; %s m ; } ;\nvoid main() {\n  S s = { 7 , %s } ;\n  println( ( s.m + 0 ) ) ;\n"
-                   "  println( s.pad ) ;\n}\n" % (T, lit(v)))
-            return src, q, [7]
         if how == "compound":
             r = compound_operands("add", t, v, rng)
             if r is None:
@@ -621,6 +670,10 @@ def raw_build(path, t, v, rng):
             src = ("struct S { %s[3] a ; long pad ; } ;\nvoid main() {\n  S s ;\n  s.a[ 1 ] = %s ;\n  println( ( 0 + s.a[ 1 ] ) ) ;\n"
                    "  println( ( 0 + s.a[ 2 ] ) ) ;\n}\n" % (T, lit(v)))
             return src, q, [0]
+        if how == "array-elem2":
+            src = ("struct S { %s[2][2] a ; long pad ; } ;\nvoid main() {\n  S s ;\n  s.a[ 1 ][ 0 ] = %s ;\n  println( ( 0 + s.a[ 1 ][ 0 ] ) ) ;\n"
+                   "  println( ( 0 + s.a[ 0 ][ 0 ] ) ) ;\n  println( s.pad ) ;\n}\n" % (T, lit(v)))
+            return src, q, [0, 0]
         if how == "param":
             src = ("struct S { %s m ; long pad ; } ;\nlong f( S s , long x ) {\n  s.m = x ;\n  return ( s.m + 0 ) ;\n}\n"
                    "void main() {\n  S s ;\n  println( f( s , %s ) ) ;\n}\n" % (T, lit(v)))
@@ -630,16 +683,107 @@ def raw_build(path, t, v, rng):
                 return None
             src = "struct Box<T> { T v ; } ;\nvoid main() {\n  Box<%s> b ;\n  b.v = %s ;\n  println( ( b.v + 0 ) ) ;\n}\n" % (T, lit(v))
             return src, "store member-generic %s %d" % (t, v), []
+        if how == "incdec-expr":
+            # s.m++ / --s.m as an expression: the value of the expression itself is printed too
+            r = incdec_start(t, v, rng)
+            if r is None:
+                return None
+            start, inc = r
+            op = "++" if inc else "--"
+            post = rng.randint(0, 1)
+            e = ("s.m %s" % op) if post else ("%s s.m" % op)
+            src = ("struct S { %s m ; long pad ; } ;\nvoid main() {\n  S s ;\n  s.m = %s ;\n  long w = %s ;\n  println( ( s.m + 0 ) ) ;\n"
+                   "  println( w ) ;\n  println( s.pad ) ;\n}\n" % (T, lit(start), e))
+            return src, q, [start if post else "=", 0]
+    if p == "member-literal":
+        # managers/structs/assignment.cpp process_named_initialization / process_positional_initialization: the unsigned clamp only
+        # (finding C04-struct-literal-unchecked)
+        q = "store member-literal %s %d" % (t, v)
+        if how == "positional":
+            src = ("struct S { long pad ; %s m ; } ;\nvoid main() {\n  S s = { 7 , %s } ;\n  println( ( s.m + 0 ) ) ;\n"
+                   "  println( s.pad ) ;\n}\n" % (T, lit(v)))
+            return src, q, [7]
+        if how == "named":
+            src = ("struct S { %s m ; long pad ; } ;\nvoid main() {\n  S s = { m : %s , pad : 7 } ;\n  println( ( s.m + 0 ) ) ;\n"
+                   "  println( s.pad ) ;\n}\n" % (T, lit(v)))
+            return src, q, [7]
+        if how == "nested":
+            src = ("struct I { %s m ; } ;\nstruct O { I in ; long pad ; } ;\nvoid main() {\n  O o = { in : { m : %s } , pad : 7 } ;\n"
+                   "  println( ( o.in.m + 0 ) ) ;\n  println( o.pad ) ;\n}\n" % (T, lit(v)))
+            return src, q, [7]
+        if how == "generic":
+            if t.startswith("u"):
+                return None
+            src = "struct Box<T> { T v ; } ;\nvoid main() {\n  Box<%s> b = { v : %s } ;\n  println( ( b.v + 0 ) ) ;\n}\n" % (T, lit(v))
+            return src, q, []
+        if how == "assign":
+            src = ("struct S { %s m ; long pad ; } ;\nvoid main() {\n  S s ;\n  s = { m : %s , pad : 7 } ;\n  println( ( s.m + 0 ) ) ;\n"
+                   "  println( s.pad ) ;\n}\n" % (T, lit(v)))
+            return src, q, [7]
+        if how == "struct-array-elem":
+            # the documented way to fill an array of structs: ps[i] = {..};
+            src = ("struct S { %s m ; long pad ; } ;\nvoid main() {\n  S[3] ps ;\n  ps[ 1 ] = { m : %s , pad : 7 } ;\n  println( ( ps[ 1 ].m + 0 ) ) ;\n"
+                   "  println( ps[ 1 ].pad ) ;\n  println( ( ps[ 2 ].m + 0 ) ) ;\n}\n" % (T, lit(v)))
+            return src, q, [7, 0]
+        if how == "array":
+            # an array member inside the literal: clamp, and the element is read back narrowed like a 1-D array element
+            src = ("struct S { %s[3] a ; long pad ; } ;\nvoid main() {\n  S s = { a : [ 0 , %s , 0 ] , pad : 7 } ;\n"
+                   "  println( ( 0 + s.a[ 1 ] ) ) ;\n  println( ( 0 + s.a[ 2 ] ) ) ;\n  println( s.pad ) ;\n}\n" % (T, lit(v)))
+            return src, "store member-literal-arr %s %d" % (t, v), [0, 7]
+    if p == "member-arrlit":
+        # s.a = [..]: StructAssignmentManager::assign_struct_member_array_literal - clamp only (finding C04-array-literal-assign-unchecked)
+        src = ("struct S { %s[3] a ; long pad ; } ;\nvoid main() {\n  S s ;\n  s.a = [ 0 , %s , 0 ] ;\n  println( ( 0 + s.a[ 1 ] ) ) ;\n"
+               "  println( ( 0 + s.a[ 2 ] ) ) ;\n  println( s.pad ) ;\n}\n" % (T, lit(v)))
+        return src, "store member-arrlit-assign %s %d" % (t, v), [0, 0]
     if p == "member-nested":
-        # a member of a nested struct and a member reached through `->`: Variable::value is written directly, not even the clamp
+        # a member of a nested struct: Variable::value is written directly, not even the clamp (finding C04-nested-member-store-unchecked)
         q = "store member-nested %s %d" % (t, v)
         if how == "assign":
             src = ("struct I { %s m ; } ;\nstruct O { I in ; long pad ; } ;\nvoid main() {\n  O o ;\n  o.in.m = %s ;\n"
                    "  println( ( o.in.m + 0 ) ) ;\n  println( o.pad ) ;\n}\n" % (T, lit(v)))
             return src, q, [0]
-        src = ("struct S { %s m ; long pad ; } ;\nvoid main() {\n  S s ;\n  S* p = &s ;\n  p->m = %s ;\n  println( ( s.m + 0 ) ) ;\n"
-               "  println( s.pad ) ;\n}\n" % (T, lit(v)))
+        if how == "compound":
+            r = compound_operands("add", t, v, rng)
+            if r is None:
+                return None
+            start, op, operand = r
+            src = ("struct I { %s m ; } ;\nstruct O { I in ; long pad ; } ;\nvoid main() {\n  O o ;\n  o.in.m = %s ;\n  o.in.m %s= %s ;\n"
+                   "  println( ( o.in.m + 0 ) ) ;\n  println( o.pad ) ;\n}\n" % (T, lit(start), op, lit(operand)))
+            return src, q, [0]
+    if p == "member-pointer":
+        # a member reached through a pointer to the struct (finding C04-member-through-pointer-unchecked)
+        q = "store member-pointer %s %d" % (t, v)
+        tgt = "p->m" if how == "arrow" else "( *p ).m"
+        src = ("struct S { %s m ; long pad ; } ;\nvoid main() {\n  S s ;\n  S* p = &s ;\n  %s = %s ;\n  println( ( s.m + 0 ) ) ;\n"
+               "  println( s.pad ) ;\n}\n" % (T, tgt, lit(v)))
         return src, q, [0]
+    if p == "member-reference":
+        # a member reached through a reference to the struct, or through self inside a method (finding C04-member-through-reference-unchecked)
+        q = "store member-reference %s %d" % (t, v)
+        if how == "local":
+            src = ("struct S { %s m ; long pad ; } ;\nvoid main() {\n  S s ;\n  S& r = s ;\n  r.m = %s ;\n  println( ( s.m + 0 ) ) ;\n"
+                   "  println( s.pad ) ;\n}\n" % (T, lit(v)))
+        elif how == "param":
+            src = ("struct S { %s m ; long pad ; } ;\nvoid f( S& r , long x ) {\n  r.m = x ;\n}\nvoid main() {\n  S s ;\n  f( s , %s ) ;\n"
+                   "  println( ( s.m + 0 ) ) ;\n  println( s.pad ) ;\n}\n" % (T, lit(v)))
+        else:
+            src = ("interface Setter { void put( long x ) ; } ;\nstruct S { %s m ; long pad ; } ;\nimpl Setter for S {\n  void put( long x ) {\n"
+                   "    self.m = x ;\n  }\n} ;\nvoid main() {\n  S s ;\n  s.put( %s ) ;\n  println( ( s.m + 0 ) ) ;\n  println( s.pad ) ;\n}\n" % (T, lit(v)))
+        return src, q, [0]
+    if p == "member-struct-array":
+        # a member of an element of a struct array (finding C04-struct-array-member-unchecked)
+        q = "store member-struct-array %s %d" % (t, v)
+        if how == "assign":
+            body = "  ps[ 1 ].m = %s ;\n" % lit(v)
+        else:
+            r = compound_operands("add", t, v, rng)
+            if r is None:
+                return None
+            start, op, operand = r
+            body = "  ps[ 1 ].m = %s ;\n  ps[ 1 ].m %s= %s ;\n" % (lit(start), op, lit(operand))
+        src = ("struct S { %s m ; long pad ; } ;\nvoid main() {\n  S[3] ps ;\n%s  println( ( ps[ 1 ].m + 0 ) ) ;\n"
+               "  println( ps[ 1 ].pad ) ;\n  println( ( ps[ 0 ].m + 0 ) ) ;\n}\n" % (T, body))
+        return src, q, [0, 0]
     if p == "deref":
         src = "void main() {\n  %s b = 1 ;\n  %s* p = &b ;\n  *p = %s ;\n%s}\n" % (T, T, lit(v), rb)
         return src, "store deref %s %d" % (t, v), []
@@ -677,9 +821,10 @@ NARROW = ["tiny", "short", "int", "char", "utiny", "ushort", "uint", "ulong", "l
 
 
 def mixed_program(rng):
-    """A straight-line program of 4-10 stores over 3-5 typed cells; every store is on a path on
-    which Mech refines Spec (declaration, assignment - also from a ?: and from a call -, compound assignment, ++/--,
-    argument, signed 1-D and multi-dimensional elements, global scalar); values are aimed at the limits of the target's type."""
+    """A straight-line program of 4-10 stores over 3-5 typed cells (in half of the programs also the narrow members of a plain
+    struct); every store is on a path on which Mech refines Spec (declaration, assignment - also from a ?: and from a call -,
+    compound assignment, ++/--, argument, signed 1-D and multi-dimensional elements, global scalar, direct struct member stores);
+    values are aimed at the limits of the target's type."""
     nvars = rng.randint(3, 5)
     G, F, M = [], [], []
     cells = []          # (id, type)
@@ -728,6 +873,15 @@ def mixed_program(rng):
         M.append("(decl 0 0 %s %d %s)" % (t, x, lit(val(t))))
         cells.append((x, t))
         M.append(_readback(x))
+    if rng.random() < 0.5:
+        # a plain struct whose narrow members are further cells (member j of struct variable x = cell 1000 + 8 * x + j): direct member
+        # stores are range checked since fix a3f0b3d, so they take part in every kind of store below
+        sx = fresh()
+        flds = ["long"] + [rng.choice(NARROW) for _ in range(rng.randint(1, 3))]
+        M.append("(struct 1 %d %s)" % (sx, " ".join(flds)))
+        for j, t in enumerate(flds):
+            if j:
+                cells.append((1000 + 8 * sx + j, t))
     F.append("(F 2 long ((%d long)) ((ret (v %d))))" % (vid[0] + 1, vid[0] + 1))      # identity, for `x = f(e);` / `x = c ? f(e) : y;`
     vid[0] += 1
     for _ in range(rng.randint(4, 10)):
